@@ -1,1 +1,404 @@
-//! Kani harnesses (responder)
+//! Kani harnesses for `Responder` (child module of teos/src/responder.rs under cfg(kani)). Serves C01, C02, C04, C11.
+use super::*;
+use crate::carrier::verif_harness::expected_status;
+use crate::gatekeeper::verif_harness::concrete_gk;
+use crate::verif_bitcoind as node;
+use crate::verif_bitcoind::Outcome;
+use crate::verif_collections::HashMap;
+use crate::verif_stubs::*;
+
+/// A responder over: the model database (with `user(0)`, `user(1)` registered), a carrier on the node model, and a tx
+/// index of size 2 holding two blocks (ids 1, 2), where block 2 contains the transaction `in_index` if given.
+/// Everything is built from concrete values; `havoc_responder` then writes the symbolic scalars in place (see
+/// `concrete_gk` for why).
+pub(crate) fn concrete_responder(in_index: Option<&Transaction>) -> Responder {
+    let mut gk = Arc::new(concrete_gk(2));
+    Arc::get_mut(&mut gk).unwrap().verif_havoc(2);
+    let dbm = gk.verif_dbm();
+    let cli = Arc::new(crate::verif_bitcoind::Client::model());
+    let reach = Arc::new((Mutex::new(true), std::sync::Condvar::new()));
+    let carrier = Carrier::new(cli, reach, 0);
+    let mut idx: TxIndex<Txid, BlockHash> = TxIndex::verif_empty(2, 10);
+    let empty: HashMap<Txid, BlockHash> = HashMap::new();
+    idx.update(hdr(1), &empty);
+    let mut m: HashMap<Txid, BlockHash> = HashMap::new();
+    if let Some(t) = in_index {
+        m.insert(txid_model(t), block_hash_model(&hdr(2)));
+    }
+    idx.update(hdr(2), &m);
+    Responder {
+        tx_index: Mutex::new(idx),
+        carrier: Mutex::new(carrier),
+        gatekeeper: gk,
+        dbm,
+        reorged_trackers: Mutex::new(HashSet::new()),
+    }
+}
+
+impl Responder {
+    pub(crate) fn verif_gatekeeper(&self) -> Arc<Gatekeeper> {
+        self.gatekeeper.clone()
+    }
+    pub(crate) fn verif_dbm(&self) -> Arc<Mutex<DBM>> {
+        self.dbm.clone()
+    }
+    pub(crate) fn verif_set_carrier_height(&self, h: u32) {
+        self.carrier.lock().unwrap().update_height(h);
+    }
+}
+
+/// Arbitrary tip height of the tx index (returned) and arbitrary carrier height, written in place.
+pub(crate) fn havoc_responder(r: &Responder) -> u32 {
+    let tip: u32 = kani::any();
+    kani::assume(tip >= 1 && tip < u32::MAX - 4);
+    r.tx_index.lock().unwrap().verif_set_tip(tip);
+    r.carrier.lock().unwrap().update_height(kani::any());
+    tip
+}
+
+/// C01.P3 / C02: handle_breach decision tree and bookkeeping.
+#[kani::proof]
+#[kani::stub(bitcoin::Transaction::compute_txid, crate::verif_stubs::txid_model)]
+#[kani::stub(bitcoin::block::Header::block_hash, crate::verif_stubs::block_hash_model)]
+#[kani::stub(Carrier::hang_until_bitcoind_reachable, Carrier::hang_model)]
+#[kani::unwind(6)]
+fn c01_p3_handle_breach_in_index() {
+    handle_breach_step(true);
+}
+
+#[kani::proof]
+#[kani::stub(bitcoin::Transaction::compute_txid, crate::verif_stubs::txid_model)]
+#[kani::stub(bitcoin::block::Header::block_hash, crate::verif_stubs::block_hash_model)]
+#[kani::stub(Carrier::hang_until_bitcoind_reachable, Carrier::hang_model)]
+#[kani::unwind(6)]
+fn c01_p3_handle_breach_not_in_index() {
+    handle_breach_step(false);
+}
+
+fn handle_breach_step(confirmed: bool) {
+    let dispute = tx(1);
+    let penalty = tx(2);
+    let r = concrete_responder(if confirmed { Some(&penalty) } else { None });
+    let tip = havoc_responder(&r);
+    let ch = r.carrier.lock().unwrap().block_height();
+    r.dbm.lock().unwrap().verif_push_appointment(uuid(0), ext_appointment(0, user(0), 10));
+    let w0 = r.dbm.lock().unwrap().verif_writes();
+    let st = r.handle_breach(uuid(0), Breach::new(dispute.clone(), penalty.clone()), user(0));
+    let (n_sent, n_q, last) = unsafe { (node::N_SENT, node::N_QUERIED, node::LAST_OUTCOME) };
+    if confirmed {
+        assert!(st == ConfirmationStatus::ConfirmedIn(tip), "C01.respond: a penalty found in the recent-block index is ConfirmedIn(its block's height)");
+        assert!(n_sent == 0 && n_q == 0, "C02: nothing is sent for a penalty that is already confirmed");
+    } else if n_sent == 0 {
+        assert!(n_q == 1 && last == Some(Outcome::Ok), "C01.respond: the penalty is only left unsent if the node already has it in its mempool");
+        assert!(st == ConfirmationStatus::InMempoolSince(ch), "C01.respond: already in mempool => InMempoolSince(carrier height)");
+    } else {
+        assert!(n_sent == 1 && unsafe { node::SENT[0] } == Some(txid_model(&penalty)), "C01.respond: the penalty (and nothing else) is submitted, once");
+        assert!(st == expected_status(last.unwrap(), ch), "C01.respond: the status is the node's verdict");
+    }
+    let dbm = r.dbm.lock().unwrap();
+    if st.accepted() {
+        let t = dbm.verif_tracker_row(uuid(0));
+        assert!(t.is_some(), "C01.respond: an accepted response is recorded as a tracker");
+        let t = t.unwrap();
+        assert!(t.dispute == 1 && t.penalty == 2 && t.status == st && uid(&t.user_id) == 0,
+            "C01.respond: the tracker holds exactly that dispute, penalty, status and owner");
+    } else {
+        assert!(!dbm.tracker_exists(uuid(0)), "C02: no tracker (no dispute_responded) without the node having the penalty");
+        assert!(dbm.verif_writes() == w0, "C01.respond: a refused response writes nothing");
+    }
+    assert!(dbm.appointment_exists(uuid(0)), "C01.respond: handle_breach itself never drops the appointment");
+    kani::cover!(confirmed || n_sent == 0, "reach-in-mempool");
+    kani::cover!(confirmed || (n_sent == 1 && st.accepted()), "reach-sent-accepted");
+    kani::cover!(confirmed || (n_sent == 1 && !st.accepted()), "reach-sent-rejected");
+    drop(dbm);
+    std::mem::forget(r);
+}
+
+// ------------------------------------------------------------------------------------------------ C04
+
+fn any_status() -> ConfirmationStatus {
+    if kani::any() {
+        ConfirmationStatus::ConfirmedIn(kani::any())
+    } else {
+        ConfirmationStatus::InMempoolSince(kani::any())
+    }
+}
+
+/// Adds appointment `i` (owner user(i % 2)) and its tracker with the given status to the model database.
+fn push_tracker(r: &Responder, i: u8, st: ConfirmationStatus) {
+    let dbm = r.dbm.lock().unwrap();
+    dbm.verif_push_appointment(uuid(i), ext_appointment(i, user(i % 2), 10));
+    dbm.verif_push_tracker(uuid(i), tracker(i, user(i % 2), st));
+}
+
+fn penalty_txid(i: u8) -> Txid {
+    txid_model(&tx(200 + i as u32))
+}
+fn dispute_txid(i: u8) -> Txid {
+    txid_model(&tx(100 + i as u32))
+}
+
+/// C04.P1: check_confirmations at an arbitrary height over a tracker with arbitrary recorded height; the *shape* (penalty
+/// in the connected block or not, tracker marked reorged or not, recorded as confirmed or as unconfirmed) is concrete
+/// per harness (8 shapes): symbolic enum discriminants and conditional set insertions are what make CBMC run out of
+/// memory here, symbolic scalars are cheap. A second, unconfirmed tracker with arbitrary height stands by.
+fn check_confirmations_step<const IN_BLOCK: bool, const REORGED: bool, const CONFIRMED: bool>() {
+    let r = concrete_responder(None);
+    havoc_responder(&r);
+    let cur: u32 = kani::any();
+    let h: u32 = kani::any();
+    let h1: u32 = kani::any();
+    let st = if CONFIRMED { ConfirmationStatus::ConfirmedIn(h) } else { ConfirmationStatus::InMempoolSince(h) };
+    let st1 = ConfirmationStatus::InMempoolSince(h1);
+    push_tracker(&r, 0, st);
+    push_tracker(&r, 1, st1);
+    let mut txids: HashSet<Txid> = HashSet::new();
+    txids.insert(txid_model(&tx(77))); // an unrelated transaction of the block
+    if IN_BLOCK {
+        txids.insert(penalty_txid(0));
+    }
+    if REORGED {
+        r.reorged_trackers.lock().unwrap().insert(uuid(0));
+    }
+    // representation invariant: a confirmed tracker that is not marked reorged was confirmed below the block being
+    // connected (block_disconnected marks every tracker confirmed at a disconnected height)
+    kani::assume(!CONFIRMED || REORGED || h < cur);
+    let completed = r.check_confirmations(txids, cur);
+    let dbm = r.dbm.lock().unwrap();
+    let re = r.reorged_trackers.lock().unwrap();
+    let now = dbm.verif_tracker_row(uuid(0)).map(|t| t.status);
+    let n = completed.as_ref().map_or(0, |v| v.len());
+    let c0 = completed.as_ref().map_or(false, |v| v.iter().any(|u| *u == uuid(0)));
+    let c1 = completed.as_ref().map_or(false, |v| v.iter().any(|u| *u == uuid(1)));
+    if IN_BLOCK {
+        assert!(now == Some(ConfirmationStatus::ConfirmedIn(cur)), "C04.confirm: a penalty seen in the connected block is recorded as confirmed at that height");
+        assert!(!re.contains(&uuid(0)), "C04.confirm: a re-confirmed tracker is no longer treated as reorged");
+        assert!(!c0, "C04.complete: a tracker confirmed just now is not complete");
+    } else {
+        assert!(now == Some(st), "C04.confirm: the recorded status only changes when the penalty is seen in a block");
+        assert!(re.contains(&uuid(0)) == REORGED, "C04.confirm: reorged marks are kept until re-confirmation or re-submission");
+        let deep = CONFIRMED && !REORGED && cur - h == 100;
+        assert!(c0 == deep, "C04.complete: a tracker completes when, and only when, its penalty is buried exactly 100 blocks deep on the active chain");
+    }
+    assert!(!c1, "C04.complete: an unconfirmed tracker never completes");
+    assert!(dbm.verif_tracker_row(uuid(1)).map(|t| t.status) == Some(st1), "C04.confirm: other trackers keep their status");
+    assert!(n == c0 as usize + c1 as usize, "C04.complete: nothing else is reported complete");
+    assert!(completed.is_none() == (n == 0), "C04.complete: None iff nothing completed");
+    assert!(dbm.appointment_exists(uuid(0)) && dbm.appointment_exists(uuid(1)), "C04.confirm: check_confirmations deletes nothing itself");
+    assert!(unsafe { node::N_SENT == 0 && node::N_QUERIED == 0 }, "C02: counting confirmations never talks to the node");
+    kani::cover!(IN_BLOCK || REORGED || !CONFIRMED || c0, "reach-completed");
+    drop(re);
+    drop(dbm);
+    std::mem::forget(completed);
+    std::mem::forget(r);
+}
+
+macro_rules! cc_harness {
+    ($name:ident, $a:expr, $b:expr, $c:expr) => {
+        #[kani::proof]
+        #[kani::stub(bitcoin::Transaction::compute_txid, crate::verif_stubs::txid_model)]
+        #[kani::stub(bitcoin::block::Header::block_hash, crate::verif_stubs::block_hash_model)]
+        #[kani::stub(Carrier::hang_until_bitcoind_reachable, Carrier::hang_model)]
+        #[kani::unwind(6)]
+        fn $name() {
+            check_confirmations_step::<$a, $b, $c>();
+        }
+    };
+}
+cc_harness!(c04_p1_cc_inblock_reorged_confirmed, true, true, true);
+cc_harness!(c04_p1_cc_inblock_reorged_mempool, true, true, false);
+cc_harness!(c04_p1_cc_inblock_fresh_confirmed, true, false, true);
+cc_harness!(c04_p1_cc_inblock_fresh_mempool, true, false, false);
+cc_harness!(c04_p1_cc_absent_reorged_confirmed, false, true, true);
+cc_harness!(c04_p1_cc_absent_reorged_mempool, false, true, false);
+cc_harness!(c04_p1_cc_absent_fresh_confirmed, false, false, true);
+cc_harness!(c04_p1_cc_absent_fresh_mempool, false, false, false);
+
+/// C04.P2: block_disconnected(height): exactly the trackers confirmed at that height join the reorged set; the
+/// disconnected block leaves the recent-block index; the carrier follows the height.
+#[kani::proof]
+#[kani::stub(bitcoin::Transaction::compute_txid, crate::verif_stubs::txid_model)]
+#[kani::stub(bitcoin::block::Header::block_hash, crate::verif_stubs::block_hash_model)]
+#[kani::stub(Carrier::hang_until_bitcoind_reachable, Carrier::hang_model)]
+#[kani::unwind(6)]
+fn c04_p2_block_disconnected() {
+    let p = tx(200);
+    let r = concrete_responder(Some(&p));
+    havoc_responder(&r);
+    let height: u32 = kani::any();
+    let st = [any_status(), any_status()];
+    push_tracker(&r, 0, st[0]);
+    push_tracker(&r, 1, st[1]);
+    let pre: bool = kani::any();
+    if pre {
+        r.reorged_trackers.lock().unwrap().insert(uuid(1));
+    }
+    chain::Listen::block_disconnected(&r, &hdr(2), height);
+    let re = r.reorged_trackers.lock().unwrap();
+    assert!(re.contains(&uuid(0)) == (st[0] == ConfirmationStatus::ConfirmedIn(height)),
+        "C04.reorg: a tracker is marked for re-submission iff its penalty was confirmed in the disconnected block");
+    assert!(re.contains(&uuid(1)) == (pre || st[1] == ConfirmationStatus::ConfirmedIn(height)),
+        "C04.reorg: earlier marks are kept");
+    let idx = r.tx_index.lock().unwrap();
+    assert!(idx.get(&penalty_txid(0)).is_none(), "C19/C04.reorg: transactions of the disconnected block leave the index");
+    assert!(idx.get_height(&block_hash_model(&hdr(2))).is_none(), "C19/C04.reorg: the disconnected block leaves the index");
+    assert!(r.carrier.lock().unwrap().block_height() == height, "C04.reorg: the carrier follows the chain event");
+    let dbm = r.dbm.lock().unwrap();
+    assert!(dbm.verif_tracker_status(uuid(0)) == Some(st[0]) && dbm.verif_tracker_status(uuid(1)) == Some(st[1]),
+        "C04.reorg: a disconnection changes no recorded status");
+    assert!(unsafe { node::N_SENT == 0 }, "C02: nothing is sent on a disconnection");
+    kani::cover!(re.contains(&uuid(0)) && !re.contains(&uuid(1)), "reach-one-marked");
+    drop(dbm);
+    drop(idx);
+    drop(re);
+    std::mem::forget(r);
+}
+
+/// C04.P3 / C02.P2: handle_reorged_txs(height) for one reorged tracker (plus an untouched bystander): dispute first,
+/// penalty only if the dispute was not rejected; not rejected => InMempoolSince(height); rejected => listed.
+#[kani::proof]
+#[kani::stub(bitcoin::Transaction::compute_txid, crate::verif_stubs::txid_model)]
+#[kani::stub(bitcoin::block::Header::block_hash, crate::verif_stubs::block_hash_model)]
+#[kani::stub(Carrier::hang_until_bitcoind_reachable, Carrier::hang_model)]
+#[kani::stub(Carrier::send_transaction, Carrier::send_transaction_contract)]
+#[kani::unwind(6)]
+fn c04_p3_handle_reorged() {
+    let r = concrete_responder(None);
+    havoc_responder(&r);
+    let height: u32 = kani::any();
+    let st0 = ConfirmationStatus::ConfirmedIn(kani::any());
+    let st1 = any_status();
+    push_tracker(&r, 0, st0);
+    push_tracker(&r, 1, st1);
+    r.reorged_trackers.lock().unwrap().insert(uuid(0));
+    let rejected = r.handle_reorged_txs(height);
+    let (n_sent, o) = unsafe { (node::N_SENT, node::SEND_OUTCOMES) };
+    assert!(r.reorged_trackers.lock().unwrap().is_empty(), "C04.resubmit: the reorged set is consumed");
+    assert!(n_sent >= 1 && unsafe { node::SENT[0] } == Some(dispute_txid(0)), "C04.resubmit: the dispute transaction is re-announced first");
+    let d_rej = matches!(expected_status(o[0].unwrap(), 0), ConfirmationStatus::Rejected(_));
+    let is_rej = rejected.as_ref().map_or(false, |v| v.contains(&uuid(0)));
+    let dbm = r.dbm.lock().unwrap();
+    if d_rej {
+        assert!(n_sent == 1, "C02: the penalty is not sent when the dispute is refused");
+        assert!(is_rej, "C04.resubmit: a tracker whose dispute is refused is reported for deletion");
+    } else {
+        assert!(n_sent == 2 && unsafe { node::SENT[1] } == Some(penalty_txid(0)), "C04.resubmit: then the penalty is re-submitted");
+        let p_rej = matches!(expected_status(o[1].unwrap(), 0), ConfirmationStatus::Rejected(_));
+        assert!(is_rej == p_rej, "C04.resubmit: reported for deletion iff the node refuses the penalty");
+        if !p_rej {
+            assert!(dbm.verif_tracker_status(uuid(0)) == Some(ConfirmationStatus::InMempoolSince(height)),
+                "C04.resubmit: a re-submitted penalty is unconfirmed since the current height");
+        }
+    }
+    assert!(rejected.as_ref().map_or(true, |v| v.len() == 1 && is_rej), "C04.resubmit: nobody else is reported");
+    assert!(dbm.verif_tracker_status(uuid(1)) == Some(st1), "C04.resubmit: trackers that were not reorged are untouched");
+    assert!(dbm.tracker_exists(uuid(0)), "C04.resubmit: deletion is left to the caller");
+    kani::cover!(d_rej, "reach-dispute-rejected");
+    kani::cover!(!d_rej && !is_rej, "reach-resubmitted");
+    drop(dbm);
+    std::mem::forget(rejected);
+    std::mem::forget(r);
+}
+
+/// C04.P4a: rebroadcast_stale_txs(height) asks the database for exactly the trackers unconfirmed since `height - 6` or
+/// earlier, for every height (the selection rule `<=` itself is SQL, i.e. model).
+#[kani::proof]
+#[kani::stub(bitcoin::Transaction::compute_txid, crate::verif_stubs::txid_model)]
+#[kani::stub(bitcoin::block::Header::block_hash, crate::verif_stubs::block_hash_model)]
+#[kani::stub(Carrier::hang_until_bitcoind_reachable, Carrier::hang_model)]
+#[kani::unwind(6)]
+fn c04_p4_rebroadcast_threshold() {
+    let r = concrete_responder(None);
+    havoc_responder(&r);
+    let height: u32 = kani::any();
+    kani::assume(height >= 6); // see known finding F16 for heights below 6
+    let rejected = r.rebroadcast_stale_txs(height);
+    assert!(rejected.is_none(), "C04.rebroadcast: nothing to report without trackers");
+    assert!(unsafe { crate::dbm::LAST_STATUS_QUERY } == Some(ConfirmationStatus::InMempoolSince(height - 6)),
+        "C04.rebroadcast: the stale threshold is 6 blocks");
+    assert!(unsafe { node::N_SENT == 0 }, "C02: nothing is sent without trackers");
+    kani::cover!(height == 6, "reach-boundary");
+    std::mem::forget(r);
+}
+
+/// C04.P4b: loop body of rebroadcast_stale_txs at concrete heights on both sides of the threshold (H0 = height the
+/// penalty has been unconfirmed since; the call is at height 16): the stale penalty (and only it) is re-submitted, the
+/// node's verdict (symbolic) is recorded, refused ones are reported; confirmed trackers are never re-submitted.
+fn rebroadcast_step<const H0: u32, const BYSTANDER: bool, const OUT: i32>() {
+    let r = concrete_responder(None);
+    let height = 16u32;
+    let st0 = ConfirmationStatus::InMempoolSince(H0);
+    let st1 = ConfirmationStatus::ConfirmedIn(3);
+    push_tracker(&r, 0, st0);
+    if BYSTANDER {
+        push_tracker(&r, 1, st1);
+    }
+    r.carrier.lock().unwrap().update_height(height);
+    // the only verdict rebroadcast cannot record is "already in chain" (known finding F7): ruled out here, decided by
+    // the witness harness c04_p4_rebroadcast_f7
+    // (the verdict is concrete per harness: OUT = 0 accepted, otherwise that RPC error code; the mapping of *all* node
+    // replies to verdicts is the carrier contract c12_k1; symbolic verdicts make this loop run out of memory)
+    let o: Outcome = if OUT == 0 { Outcome::Ok } else { Outcome::Rpc(OUT) };
+    unsafe { node::SCRIPT = Some(o) };
+    let rejected = r.rebroadcast_stale_txs(height);
+    let n_sent = unsafe { node::N_SENT };
+    let stale = H0 + 6 <= height;
+    let dbm = r.dbm.lock().unwrap();
+    let now0 = dbm.verif_tracker_row(uuid(0)).map(|t| t.status);
+    if stale {
+        assert!(n_sent == 1, "C04.rebroadcast: a penalty unconfirmed for 6 blocks is re-submitted (only it)");
+        assert!(unsafe { node::SENT[0] }.map(|t| AsRef::<[u8; 32]>::as_ref(&t)[0]) == Some(200), "C04.rebroadcast: what is re-submitted is the penalty");
+        let is_rej = OUT != 0 && OUT != -27;
+        assert!(rejected.is_some() == is_rej, "C04.rebroadcast: reported for deletion iff the node refuses it");
+        assert!(rejected.as_ref().map_or(true, |x| x.len() == 1 && uuid_b0(&x[0]) == 0), "C04.rebroadcast: nobody else is reported");
+        if !is_rej {
+            assert!(now0 == Some(ConfirmationStatus::InMempoolSince(height)), "C04.rebroadcast: the new verdict is recorded");
+        }
+    } else {
+        assert!(n_sent == 0, "C04.rebroadcast: nothing else is re-submitted");
+        assert!(rejected.is_none(), "C04.rebroadcast: nothing is reported");
+        assert!(now0 == Some(st0), "C04.rebroadcast: status untouched");
+    }
+    assert!(!BYSTANDER || dbm.verif_tracker_row(uuid(1)).map(|t| t.status) == Some(st1), "C04.rebroadcast: confirmed trackers are never re-submitted");
+    kani::cover!(true, "reach");
+    drop(dbm);
+    std::mem::forget(rejected);
+    std::mem::forget(r);
+}
+
+macro_rules! rb_harness {
+    ($name:ident, $h0:expr, $by:expr, $out:expr) => {
+        #[kani::proof]
+        #[kani::stub(bitcoin::Transaction::compute_txid, crate::verif_stubs::txid_model)]
+        #[kani::stub(bitcoin::block::Header::block_hash, crate::verif_stubs::block_hash_model)]
+        #[kani::stub(Carrier::hang_until_bitcoind_reachable, Carrier::hang_model)]
+        #[kani::stub(Carrier::send_transaction, Carrier::send_transaction_contract)]
+        #[kani::unwind(6)]
+        fn $name() {
+            rebroadcast_step::<$h0, $by, $out>();
+        }
+    };
+}
+rb_harness!(c04_p4_rebroadcast_stale_boundary_accepted, 10, false, 0);
+rb_harness!(c04_p4_rebroadcast_stale_boundary_rejected, 10, false, -26);
+rb_harness!(c04_p4_rebroadcast_stale_old_unknown_error, 2, false, -1);
+rb_harness!(c04_p4_rebroadcast_fresh_boundary, 11, true, 0);
+
+/// Witness for known finding F7: a re-submitted penalty that the node reports as already in the chain (-27) makes
+/// rebroadcast_stale_txs unwrap() a MissingField error (acknowledged by a DISCUSS comment in the source).
+#[kani::proof]
+#[kani::stub(bitcoin::Transaction::compute_txid, crate::verif_stubs::txid_model)]
+#[kani::stub(bitcoin::block::Header::block_hash, crate::verif_stubs::block_hash_model)]
+#[kani::stub(Carrier::hang_until_bitcoind_reachable, Carrier::hang_model)]
+#[kani::stub(Carrier::send_transaction, Carrier::send_transaction_contract)]
+#[kani::unwind(6)]
+fn c04_p4_rebroadcast_f7() {
+    let r = concrete_responder(None);
+    push_tracker(&r, 0, ConfirmationStatus::InMempoolSince(2));
+    r.carrier.lock().unwrap().update_height(16);
+    unsafe { node::SCRIPT = Some(Outcome::Rpc(-27)) };
+    let rejected = r.rebroadcast_stale_txs(16);
+    kani::cover!(true, "reach");
+    std::mem::forget(rejected);
+    std::mem::forget(r);
+}
